@@ -4,8 +4,9 @@
     Naming: [_partial] = proved under a named guard that excludes a recorded defect of /repo;
     [_as_is] = what holds of the code as it stands (the defect overlooked by the stated laxity);
     [_refuted] = the full-strength statement fails, with a witness.
-    Recorded defects: F-C13-1 link tracestate, F-C13-2 log dropped count, F-C13-3 resources that
-    differ only in schema URL, F-C13-4 Empty log values, F-C13-5 exponential-histogram zero threshold. *)
+    Recorded defects: F-C13-3 resources that differ only in schema URL, F-C13-4 Empty log values,
+    F-C13-5 exponential-histogram zero threshold.  (F-C13-1 link tracestate and F-C13-2 log dropped count
+    are repaired in /repo - fd654da, c7bf84f -: the span and log field theorems hold without those guards.) *)
 From Coq Require Import Permutation.
 From Verif Require Import Lib.Base C13.Types C13.Model C13.Spec C13.Proofs.
 Open Scope N_scope.
@@ -78,37 +79,27 @@ Print Assumptions c13_log_value_typed_refuted.
 (** ** Span fields *)
 
 (** Decoding the protobuf span gives back ids, tracestate, parent (and its remoteness), name,
-    kind, times, attributes, events, links, status and dropped counts - within the range guards
-    (non-negative Unix nanos, counts below 2^32, enums in range) and for links without tracestate. *)
-Theorem c13_span_fields_partial : forall s,
-  span_guard s = true -> no_link_ts s -> span_of_pb (span_pb s) = Some (canon_span s).
+    kind, times, attributes, events, links (tracestate included), status and dropped counts - within
+    the range guards (non-negative Unix nanos, counts below 2^32, enums in range). *)
+Theorem c13_span_fields : forall s,
+  span_guard s = true -> span_of_pb (span_pb s) = Some (canon_span s).
 Proof. exact span_roundtrip. Qed.
-Print Assumptions c13_span_fields_partial.
-
-Theorem c13_span_fields_as_is : forall s,
-  span_guard s = true -> span_of_pb (span_pb s) = Some (norm_span lax_F1 (canon_span s)).
-Proof. exact span_roundtrip_as_is. Qed.
-Print Assumptions c13_span_fields_as_is.
-
-Theorem c13_span_fields_refuted : exists s, span_guard s = true /\ span_of_pb (span_pb s) <> Some (canon_span s).
-Proof. exact span_roundtrip_refuted. Qed.
-Print Assumptions c13_span_fields_refuted.
+Print Assumptions c13_span_fields.
 
 (** ** Log record fields *)
 
+(** All fields, the dropped-attribute count included - for records without Empty values (F-C13-4). *)
 Theorem c13_log_fields_partial : forall r,
   lrec_guard r = true -> lrec_clean r -> lrec_of_pb (lrec_pb r) = r.
 Proof. exact lrec_roundtrip. Qed.
 Print Assumptions c13_log_fields_partial.
 
-Theorem c13_log_fields_as_is : forall r, lrec_guard r = true -> lrec_of_pb (lrec_pb r) = norm_lrec lax_F24 r.
+Theorem c13_log_fields_as_is : forall r, lrec_guard r = true -> lrec_of_pb (lrec_pb r) = norm_lrec lax_F4 r.
 Proof. exact lrec_roundtrip_as_is. Qed.
 Print Assumptions c13_log_fields_as_is.
 
-Theorem c13_log_fields_refuted :
-  (exists r, lrec_guard r = true /\ has_empty (lr_body r) = false /\ lrec_of_pb (lrec_pb r) <> r) /\
-  (exists r, lrec_guard r = true /\ lr_dropped r = 0%Z /\ lrec_of_pb (lrec_pb r) <> r).
-Proof. split; [exact lrec_dropped_refuted | exact lrec_empty_refuted]. Qed.
+Theorem c13_log_fields_refuted : exists r, lrec_guard r = true /\ lrec_of_pb (lrec_pb r) <> r.
+Proof. exact lrec_empty_refuted. Qed.
 Print Assumptions c13_log_fields_refuted.
 
 (** ** Metric fields *)
@@ -144,7 +135,7 @@ Print Assumptions c13_metric_invalid_dropped.
 
 (** Traces: every span exactly once, under its own resource and scope, identical fields. *)
 Theorem c13_traces_faithful_partial : forall l : list (item span),
-  (forall x, In x l -> span_guard (it_body x) = true /\ no_link_ts (it_body x)) ->
+  (forall x, In x l -> span_guard (it_body x) = true) ->
   schema_consistent l -> canon_separated l ->
   trace_spec strict l (spans_pb l) = true.
 Proof. exact trace_faithful. Qed.
@@ -152,15 +143,14 @@ Print Assumptions c13_traces_faithful_partial.
 
 Theorem c13_traces_faithful_as_is : forall l : list (item span),
   (forall x, In x l -> span_guard (it_body x) = true) -> canon_separated l ->
-  trace_spec lax_F13 l (spans_pb l) = true.
+  trace_spec lax_F3 l (spans_pb l) = true.
 Proof. exact trace_faithful_as_is. Qed.
 Print Assumptions c13_traces_faithful_as_is.
 
 Theorem c13_traces_faithful_refuted :
-  (exists l, (forall x, In x l -> span_guard (it_body x) = true) /\ trace_spec strict l (spans_pb l) = false) /\
-  (exists l, (forall x, In x l -> span_guard (it_body x) = true /\ no_link_ts (it_body x)) /\
-             trace_spec strict l (spans_pb l) = false).
-Proof. split; [exact trace_link_ts_refuted | exact trace_schema_twins_refuted]. Qed.
+  exists l, (forall x, In x l -> span_guard (it_body x) = true) /\ trace_spec strict l (spans_pb l) = false /\
+            trace_spec lax_F3 l (spans_pb l) = true.
+Proof. exact trace_schema_twins_refuted. Qed.
 Print Assumptions c13_traces_faithful_refuted.
 
 (** Logs. *)
@@ -173,17 +163,15 @@ Print Assumptions c13_logs_faithful_partial.
 
 Theorem c13_logs_faithful_as_is : forall l : list (item lrec),
   (forall x, In x l -> lrec_guard (it_body x) = true) -> canon_separated l ->
-  log_spec lax_F234 l (logs_pb l) = true.
+  log_spec lax_F34 l (logs_pb l) = true.
 Proof. exact log_faithful_as_is. Qed.
 Print Assumptions c13_logs_faithful_as_is.
 
 Theorem c13_logs_faithful_refuted :
   (exists l, (forall x, In x l -> lrec_guard (it_body x) = true) /\ log_spec strict l (logs_pb l) = false /\
-             log_spec (mkLax false false true false false) l (logs_pb l) = true) /\
+             log_spec (mkLax false true false) l (logs_pb l) = true) /\
   (exists l, (forall x, In x l -> lrec_guard (it_body x) = true) /\ log_spec strict l (logs_pb l) = false /\
-             log_spec (mkLax false false false true false) l (logs_pb l) = true) /\
-  (exists l, (forall x, In x l -> lrec_guard (it_body x) = true) /\ log_spec strict l (logs_pb l) = false /\
-             log_spec (mkLax true false false false false) l (logs_pb l) = true).
+             log_spec (mkLax true false false) l (logs_pb l) = true).
 Proof. exact log_refuted. Qed.
 Print Assumptions c13_logs_faithful_refuted.
 
@@ -251,16 +239,15 @@ Definition ex_sp (n : N) (links : list link) : span :=
          links 1 (str "boom") 0 4294967295 3.
 Definition ex_batch : list (item span) :=
   [mkItem (ex_res (str "urn:1")) (ex_scope (str "lib/a")) (ex_sp 1 []);
-   mkItem (mkRes [] []) (mkScope [] [] [] []) (ex_sp 2 [mkLink (repeat 9 16) (repeat 8 8) [] true [(str "k", ABool true)] 2]);
+   mkItem (mkRes [] []) (mkScope [] [] [] []) (ex_sp 2 [mkLink (repeat 9 16) (repeat 8 8) (str "a=1") true [(str "k", ABool true)] 2]);
    mkItem (ex_res (str "urn:1")) (ex_scope (str "lib/b")) (ex_sp 3 []);
    mkItem (ex_res (str "urn:1")) (ex_scope (str "lib/a")) (ex_sp 4 [])].
 Example ex_batch_hyps :
-  (forall x, In x ex_batch -> span_guard (it_body x) = true /\ no_link_ts (it_body x)) /\
+  (forall x, In x ex_batch -> span_guard (it_body x) = true) /\
   schema_consistent ex_batch /\ canon_separated ex_batch.
 Proof.
   split; [|split; [|split]].
-  - intros x [<-|[<-|[<-|[<-|[]]]]]; (split; [reflexivity|]); intros k Hk; cbn in Hk;
-      repeat (destruct Hk as [<-|Hk]; [reflexivity|]); destruct Hk.
+  - intros x [<-|[<-|[<-|[<-|[]]]]]; reflexivity.
   - intros x y [<-|[<-|[<-|[<-|[]]]]] [<-|[<-|[<-|[<-|[]]]]]; cbn; intros E; try reflexivity; discriminate E.
   - intros x y [<-|[<-|[<-|[<-|[]]]]] [<-|[<-|[<-|[<-|[]]]]]; cbn; intros E; try reflexivity; discriminate E.
   - intros x y [<-|[<-|[<-|[<-|[]]]]] [<-|[<-|[<-|[<-|[]]]]]; cbn; intros E; try reflexivity; discriminate E.
@@ -275,11 +262,11 @@ Example ex_values :
   lval_of_pb (lval_pb (LMap [(str "k", LSlice [LInt 1; LBytes [0; 255]; LMap []])])) = LMap [(str "k", LSlice [LInt 1; LBytes [0; 255]; LMap []])].
 Proof. split; reflexivity. Qed.
 Example ex_log_hyps :
-  let r := ex_lrec (LMap [(str "k", LSlice [LInt 1; LStr (str "INVALID")])]) 0 in
+  let r := ex_lrec (LMap [(str "k", LSlice [LInt 1; LStr (str "INVALID")])]) 2 in
   lrec_guard r = true /\ lrec_clean r /\ lrec_of_pb (lrec_pb r) = r.
 Proof.
   cbv zeta. split; [reflexivity|]. split; [|vm_compute; reflexivity].
-  split; [reflexivity|]. split; [reflexivity|]. intros kv [<-|[]]. reflexivity.
+  split; [reflexivity|]. intros kv [<-|[]]. reflexivity.
 Qed.
 Example ex_metric :
   let m := mkMetric (str "h") [] (str "ms") (MHist [mkHp [(str "k", AStr (str "v"))] 10 20 3 [5; 10] [1; 1; 1] (Some (NI 2)) None (NI 21) []] 2) in
